@@ -433,4 +433,24 @@ def mergeCli (intern : List Char → Nat) (yopts : YOpts) (ylang : Option (List 
       | .null => .attributeError
       | .dict d => .ok (.dict (dupdate d cmd)) lang'
 
+/-! ## search path (`--path`, `create_wrapper(path=...)`) -/
+
+/-- `pth.split(":")` on code points -/
+def splitColon : List Nat → List (List Nat)
+  | [] => [[]]
+  | c :: r =>
+    if c = 58 then [] :: splitColon r
+    else match splitColon r with
+      | [] => [[c]]
+      | h :: t => (c :: h) :: t
+
+/-- `main_with_args`: "append all paths together" (an empty list means `["."]`) -/
+def searchPath (path : List (List Nat)) : List (List Nat) :=
+  match path with
+  | [] => [[46]]
+  | _ => path.flatMap splitColon
+
+/-- argparse `action="append"`: occurrences are appended to (a copy of) the default list -/
+def argparseAppend (dflt given : List (List Nat)) : List (List Nat) := dflt ++ given
+
 end Shroud.Scope
